@@ -15,7 +15,7 @@ def c02 (args res : List String) : Verdict :=
       let content := patternBytes total seed
       let expected := (extractSpec lens content).map fun f => toHex (sha1 f)
       let model := (extractImpl pl lens content).map fun f => toHex (sha1 f)
-      let tag := s!"e2e-peers{if honest > 11 then 12 else min honest 3}-droppers{min droppers 2}" ++ (if stayS = "5" then "-crowd-of-leechers" else if stayS = "6" then "-slow-seeder-late-twins" else if stayS = "1" ∨ stayS = "3" then "-stay" else "-leave") ++ (if stayS = "2" ∨ stayS = "3" then "-disjoint-slow" else if stayS = "4" then "-choke-race" else "") ++
+      let tag := s!"e2e-peers{if honest > 11 then 12 else min honest 3}-droppers{min droppers 2}" ++ (if stayS = "5" then "-crowd-of-leechers" else if stayS = "6" then "-slow-seeder-late-twins" else if stayS = "7" then "-eager-seeder" else if stayS = "1" ∨ stayS = "3" then "-stay" else "-leave") ++ (if stayS = "2" ∨ stayS = "3" then "-disjoint-slow" else if stayS = "4" then "-choke-race" else "") ++
         (if lens.length = 1 then "-single" else "-multi") ++ (if lens.any (· = 0) then "-emptyfile" else "")
       let get (key : String) : String := (res.filterMap fun t => if t.startsWith (key ++ "=") then some ((t.drop (key.length + 1)).toString) else none).headD "?"
       if res.head? = some "spawn-failed" ∨ res.head? = some "child-failed" then vBad ("e2e harness could not run: " ++ joinToks res)
